@@ -300,6 +300,20 @@ def run(ctx):
         for x in walk_no_nested(fi.node):
             if isinstance(x, ast.Call) and isinstance(x.func, ast.Attribute) and x.func.attr == 'generate_request':
                 callers.add(fi.qual)
+    # the message of an exchange is stamped by the IKE_SA the exchange runs on: every generate_request / generate_response in the
+    # IkeSa methods is called on `self` (the successor of a rekey, a half-built object with Message ID 0, other SPIs and no keys, never
+    # stamps a message of this IKE_SA's window)
+    nstamp = 0
+    for fi in ikesa.methods.values():
+        if not isinstance(fi.node, ast.FunctionDef) or not fi.self_name:
+            continue
+        for c in ctx.sval(fi).calls:
+            if any(q in ('ikesa.IkeSa.generate_request', 'ikesa.IkeSa.generate_response') for q in c.quals):
+                nstamp += 1
+                ctx.check(c.recv == ('param', fi.self_name), 'M3', '%s: %s is called on the IKE_SA whose exchange it is (self)' % (
+                    fi.name, c.name), key=('M3', fi.qual, 'stamp-receiver', c.name), site=ctx.site(fi, c.node),
+                    detail={'receiver': tq.text(c.recv, 120) if c.recv else None})
+    ctx.floor('M3 generate_request / generate_response calls in IkeSa', nstamp, 10, rule='M3')
     extra = callers - gen_quals - {'ikesa.IkeSa.handle_invalid_ke'}
     ctx.check(not extra, 'M4', 'generate_request is called only by the state-guarded generators and by the '
               'INVALID_KE retry (which replaces the outstanding request)', key=('M4', 'who-calls-generate_request',
